@@ -61,6 +61,53 @@ fn item(case: Case, plan: Plan, checks: u32) -> Item {
     Item { case, plan, checks }
 }
 
+/// interleavings *inside* the pulls of a by-value source (points in `next()`, busy-waiting peers made visible
+/// by the spin hook) and at closure granularity (a point at every closure entry): finer than one source
+/// operation per step, so that state shared through anything but the source is interleaved as well
+fn engine_fine(terms: &[Term], checks: u32, tier: Tier, kernels: &[&str]) -> Vec<Item> {
+    let th = tier == Tier::Thorough;
+    let mut out = Vec::new();
+    for ch in kernels {
+        for t in terms {
+            for cs in [CsSet::N(1), CsSet::N(2)] {
+                // points inside next(): by-value source of exact / unknown size
+                for known in [true, false] {
+                    let mut c = par(case(Src::SIter, 4, ch, *t), 2, cs);
+                    c.known = known;
+                    c.spoints = true;
+                    c.pmask = 0b0100;
+                    out.push(item(c.clone(), if th { Plan::full().with_cap(300_000) } else { Plan::pb(2) }, checks));
+                    if th {
+                        let mut c3 = c.clone();
+                        c3.nt[0] = NtSet::Max(3);
+                        c3.input = (0..5).collect();
+                        out.push(item(c3.clone(), Plan::pb(2), checks));
+                        out.push(item(c3, Plan::db(2), checks));
+                    }
+                }
+                // closure granularity on a wrapped Vec
+                for pm in [0b0110u64, 0b1000, 0b0101] {
+                    if !t.uses_pred() && pm != 0b0110 {
+                        continue;
+                    }
+                    let mut c = par(case(Src::SVec, 4, ch, *t), 2, cs);
+                    c.cpoints = true;
+                    c.pmask = pm;
+                    out.push(item(c.clone(), if th { Plan::full().with_cap(300_000) } else { Plan::pb(2) }, checks));
+                    let mut c3 = par(case(Src::SVec, 6, ch, *t), 3, cs);
+                    c3.cpoints = true;
+                    c3.pmask = pm << 2;
+                    out.push(item(c3.clone(), Plan::db(2), checks));
+                    if th {
+                        out.push(item(c3, Plan::pb(2).with_cap(300_000), checks));
+                    }
+                }
+            }
+        }
+    }
+    out
+}
+
 /// many workers and a slow spawner: workers are spawned after the first lag period, `Min` chunk sizes grow
 /// (the spawner's view of the remaining length depends on how far the first workers got)
 fn engine_lag(terms: &[Term], checks: u32, tier: Tier, kernels: &[&str]) -> Vec<Item> {
@@ -342,6 +389,7 @@ pub fn items(prop: &str, tier: Tier) -> Vec<Item> {
             let kernels: Vec<&str> = if th { KC[1..].to_vec() } else { KC4.to_vec() };
             out.extend(engine_s(&terms, CK_RESULT, tier, &kernels, true));
             out.extend(engine_lag(&[Term::CollectVec, Term::Collect], CK_RESULT, tier, &KC[1..]));
+            out.extend(engine_fine(&[Term::CollectVec, Term::Collect], CK_RESULT, tier, &KC4));
             out.extend(engine_e(&[Term::CollectVec, Term::Collect, Term::IntoVec], CK_RESULT, tier, &[], &[]));
         }
         // find / first / any / all
@@ -384,6 +432,7 @@ pub fn items(prop: &str, tier: Tier) -> Vec<Item> {
                 }
             }
             out.extend(engine_lag(&[Term::Find], CK_RESULT, tier, &["", "M", "MF", "OF", "XF"]));
+            out.extend(engine_fine(&[Term::Find, Term::First, Term::Any, Term::FindIdx], CK_RESULT, tier, &["", "M", "MF", "OF", "XF"]));
             // *_with_index on the concrete builder types
             for ch in ["", "M", "F", "MF", "MM", "FF"] {
                 for cs in [CsSet::N(1), CsSet::N(2)] {
@@ -463,6 +512,7 @@ pub fn items(prop: &str, tier: Tier) -> Vec<Item> {
                 }
             }
             out.extend(engine_lag(&[Term::Reduce], CK_RESULT, tier, &KC));
+            out.extend(engine_fine(&[Term::Reduce], CK_RESULT, tier, &["", "M", "MF", "OF", "XF"]));
             out.extend(engine_e(&[Term::Reduce], CK_RESULT, tier, &[], &[0, 1, 2, 3]));
         }
         // count / for_each
@@ -470,6 +520,7 @@ pub fn items(prop: &str, tier: Tier) -> Vec<Item> {
             let kernels: Vec<&str> = KC.to_vec();
             out.extend(engine_s(&[Term::Count, Term::ForEach], CK_RESULT, tier, &kernels, true));
             out.extend(engine_lag(&[Term::Count], CK_RESULT, tier, &KC));
+            out.extend(engine_fine(&[Term::Count, Term::ForEach], CK_RESULT, tier, &["", "M", "MF", "OF", "XF"]));
             out.extend(engine_e(&[Term::Count, Term::ForEach], CK_RESULT, tier, &[], &[]));
         }
         // closures exactly once; by-value source exclusive
@@ -480,6 +531,7 @@ pub fn items(prop: &str, tier: Tier) -> Vec<Item> {
             out.extend(engine_s(&full_visit, ck, tier, &kernels, false));
             out.extend(engine_s(&[Term::Find, Term::Any], ck, tier, &["", "M", "MF", "OF", "XF"], false));
             out.extend(engine_lag(&[Term::CollectVec, Term::Count, Term::Reduce], ck, tier, &["M", "MF", "OF", "XF"]));
+            out.extend(engine_fine(&[Term::CollectVec, Term::Count, Term::Reduce, Term::CollectX, Term::Find], ck, tier, &["M", "MF", "OF", "XF"]));
             out.extend(engine_e(&[Term::CollectVec, Term::Count, Term::Reduce, Term::CollectX, Term::Find], ck, tier, &[0b0100, 0], &[0]));
             // exclusivity: scheduling points *inside* the source iterator's next()
             for src in [Src::SIter, Src::PIter] {
@@ -563,6 +615,7 @@ pub fn items(prop: &str, tier: Tier) -> Vec<Item> {
                 }
             }
             out.extend(engine_lag(&[Term::CollectX], CK_RESULT, tier, &KC));
+            out.extend(engine_fine(&[Term::CollectX], CK_RESULT, tier, &KC));
             out.extend(engine_e(&[Term::CollectX], CK_RESULT, tier, &[], &[]));
         }
         // Max(n) bounds concurrency
@@ -811,6 +864,27 @@ pub fn items(prop: &str, tier: Tier) -> Vec<Item> {
                     }
                 }
             }
+            // slow workers: several closure calls per element, each a scheduling point, so that the spawner takes
+            // many steps between two pulls of a worker (the re-evaluation sees "a few elements left")
+            for (ch, t) in [("MM", Term::CollectVec), ("MMM", Term::CollectVec), ("MF", Term::Count), ("MM", Term::Reduce)] {
+                for w in [6usize, 7] {
+                    for c in [2usize, 3] {
+                        for n in (4 * c..=10 * c).chain([14 * c + 1]) {
+                            if !th && w == 7 && n % 2 == 0 {
+                                continue;
+                            }
+                            let mut cs = par(case(Src::SVec, n, ch, t), w, CsSet::Exact(c));
+                            cs.cpoints = true;
+                            out.push(item(cs.clone(), Plan::base_rr(), ck));
+                            out.push(item(cs.clone(), Plan::db(1), ck));
+                            if th {
+                                out.push(item(cs.clone(), Plan::db(2).with_cap(30_000), ck));
+                                out.push(item(cs.clone(), Plan::db(1).with_slow0(2), ck));
+                            }
+                        }
+                    }
+                }
+            }
             // few workers, every interleaving: all terminals / kernels
             for (src, known) in [(Src::SVec, true), (Src::SIter, false)] {
                 for ch in KC {
@@ -964,6 +1038,7 @@ pub fn items(prop: &str, tier: Tier) -> Vec<Item> {
                 &[0],
             ));
             out.extend(engine_lag(&[Term::CollectVec, Term::CollectX, Term::Find], ck, tier, &["M", "MF", "XF"]));
+            out.extend(engine_fine(&[Term::CollectVec, Term::CollectX, Term::Find, Term::Reduce], ck, tier, &["M", "MF", "OF", "XF"]));
             // eager (materialising) chains and deeper chains, sequential and parallel
             for cid in 0..chains::N_CHAINS {
                 for t in [Term::CollectVec, Term::Count, Term::Find, Term::Reduce, Term::CollectX] {
